@@ -198,6 +198,14 @@ func (s *Solver) check(conds []*Term, wantModel bool) (int, map[string]uint64) {
 		e[0]++
 		e[1] += dt
 		s.ByWhere[w] = e
+		if s.Queries%1000 == 999 {
+			fmt.Fprintf(os.Stderr, "-- after %d queries\n", s.Queries+1)
+			for k, v := range s.ByWhere {
+				if v[0] > 100 {
+					fmt.Fprintf(os.Stderr, "%6.0f queries %7.2fs  %s\n", v[0], v[1], k)
+				}
+			}
+		}
 	}
 	s.Seconds += dt
 	s.Queries++
